@@ -26,7 +26,7 @@ CHECKS = {
                 "in all three stores; KeyError propagates); lookups/iteration through the maps; StrategyDict attribute and "
                 "default handling with the same key tuple. Model equivalence over histories is not decided.",
         "note": NOTE,
-        "technique": "ownership (who-may-write) + per-path pairing of store updates",
+        "technique": "ownership (who-may-write) + per-path pairing of store updates + decision tables (effects of StrategyDict set / delete counted per scenario)",
     },
     "C16": {
         "text": "Static analysis: negative-delta guard dominates the enqueue; time counter only updated relatively "
@@ -43,7 +43,7 @@ CHECKS = {
                 "state stop() leaves behind, every untimed wait in run() is woken and every path reaches break within "
                 "one chunk; each chunk written once, unconditionally, in order. Schedules are not explored.",
         "note": NOTE,
-        "technique": "lock-set / lock-order analysis over a resolved call graph + abstract walk of the stop protocol; both directions of the stop protocol (stopped players break, running ones never do)",
+        "technique": "lock-set / lock-order analysis over a resolved call graph (receivers typed through constructors, containers and method return types) + abstract walk of the stop protocol in both directions + decision tables for close() (statements that run per scenario, through helper methods)",
     },
     "C18": {
         "text": "Static analysis: stdlib attributes used on array/Struct/Wave_read objects exist on this interpreter; the "
@@ -85,7 +85,7 @@ CHECKS = {
                 "dft kernel x_n*exp(-1j*n*f) with the same sign convention, normalisation only under the flag, broadcast "
                 "position of freq, cascade = product / parallel = sum. Numeric agreement with filtering is not decided.",
         "note": NOTE,
-        "technique": "normal-form comparison of the exponent and of the reduction shapes",
+        "technique": "normal-form comparison of the exponent and of the reduction shapes; dft bin extracted per normalize scenario (decision table + value flow)",
     },
     "C13": {
         "text": "Static analysis: tee budgets of all design strategies with Stream parameters (use counting per path); "
